@@ -1143,6 +1143,11 @@ buildCommand(BuildContext& context, ninja::Command* command) {
       // indicated a failure? It probably doesn't matter.
       auto commandHash = CommandSignature(command->getCommandString());
       if (command->getRule() == context.manifest->getPhonyRule()) {
+        // A phony command stands for its inputs: if one of them failed or is
+        // missing, its dependents must not run either.
+        if (shouldSkip)
+          return ti.complete(BuildValue::makeSkippedCommand().toValue());
+
         // Get the result.
         BuildValue result = computeCommandResult(commandHash);
 
